@@ -180,6 +180,11 @@ impl Ctx {
         e.last_op_start_ns = t;
         e.in_op = true;
     }
+    /// the awaited operation returned without moving payload bytes (the stream header)
+    fn op_done(&self, k: (u8, u8, u8)) {
+        let mut a = self.app.lock().unwrap();
+        a.actors.entry(k).or_default().in_op = false;
+    }
     fn handler_read(&self, id: u64, pending: bool) {
         let mut a = self.app.lock().unwrap();
         if pending {
@@ -267,6 +272,7 @@ async fn writer_task(ctx: Ctx, k: (u8, u8, u8), mut w: Writer, half: Half, heade
             ctx.end(k, err_str(&e));
             return;
         }
+        ctx.op_done(k);
     }
     let chunk = half.chunk.max(1) as usize;
     let mut buf = vec![0u8; chunk];
